@@ -10,7 +10,7 @@ RULE = ('random render-distinct trees (depth <= 4, arity 2-5, WITH pairs, multi-
         'absorbed by a single license, anywhere in the tree); Spec on the real code: simplify is idempotent, all rewrites give the '
         'same text, and the result has no operand of its node\'s kind, no two equal operands, and operands ascending under the '
         'implementation\'s own <; correspondence: the full result (order included) with the model. The two listed known findings '
-        '(render-colliding operands) are replayed first. non-trivial = a rewrite changed the tree; distinct by tree')
+        '(render-colliding operands) are replayed first; 40 % of the trees mix plain symbols with wrappers around user objects. non-trivial = a rewrite changed the tree; distinct by tree')
 ASSUMPTIONS = ['RenderDistinct: unequal atoms of one tree render differently (what one Licensing produces from text); the excluded '
                'point is known finding K2']
 
@@ -34,13 +34,15 @@ class Prop(BaseProp):
         for _ in range(rng.randint(1, 4)):
             t = gen.rewrite(rng, t)
             vs.append(t)
-        return {'tree': tree, 'variants': vs}
+        return {'tree': tree, 'variants': vs, 'wrap': rng.randrange(1 << 30) if rng.random() < 0.4 else None}
 
     def eval_case(self, drv, case):
         tree = case['tree']
         if not gen.render_distinct(tree) and not case.get('known'):
             return Verdict('skip', case)
-        e = impl.build_tree(tree)
+        import random as _random
+        wr = _random.Random(case['wrap']) if case.get('wrap') is not None else None
+        e = impl.build_tree(tree, rng=wr)
         r = e.simplify()
         rt = impl.tree_c(r)
         text = str(r)
@@ -54,7 +56,7 @@ class Prop(BaseProp):
         for v in case.get('variants', []):
             if v != tree:
                 changed = True
-            tv = str(impl.build_tree(v).simplify())
+            tv = str(impl.build_tree(v, rng=wr).simplify())
             if tv != text:
                 return Verdict('spec', case, 'a rewrite changes the text of the simplified expression', impl=[text, tv])
         if case.get('known'):
